@@ -13,6 +13,7 @@ import (
 	"fmt"
 	"math/rand/v2"
 	"net/http"
+	"net/url"
 	"strings"
 
 	"connectrpc.com/connect"
@@ -218,6 +219,67 @@ func buildRequest(rng *rand.Rand, sc *Scenario, m methodInfo, cp clientPlan, hos
 			}
 			body = append(body, envelope(flags, payload)...)
 		}
+	case "connect-get":
+		sc.ClientProto = "connect-unary" // same response format
+		method = "GET"
+		q := url.Values{}
+		q.Set("connect", "v1")
+		q.Set("encoding", cp.codec)
+		var payload []byte
+		for _, v := range values {
+			payload = append(payload, encodeValue(cp.codec, v)...)
+		}
+		if cp.comp != "" && cp.comp != "identity" {
+			q.Set("compression", cp.comp)
+			if len(payload) > 0 || rng.IntN(2) == 0 {
+				payload = compressValue(cp.comp, payload)
+			}
+		} else if cp.comp == "identity" && rng.IntN(2) == 0 {
+			q.Set("compression", "identity")
+		}
+		switch {
+		case cp.codec != "hexa" || cp.comp != "" && cp.comp != "identity" || rng.IntN(3) == 0:
+			q.Set("base64", "1")
+			if rng.IntN(3) == 0 {
+				q.Set("message", base64.URLEncoding.EncodeToString(payload)) // padded form is accepted too
+			} else {
+				q.Set("message", base64.RawURLEncoding.EncodeToString(payload))
+			}
+		default:
+			q.Set("message", string(payload))
+			if rng.IntN(3) == 0 {
+				q.Set("base64", "0")
+			}
+		}
+		if hostile {
+			switch rng.IntN(4) {
+			case 0:
+				q.Set("base64", "2")
+			case 1:
+				q.Set("message", "!!not-base64!!")
+				q.Set("base64", "1")
+			case 2:
+				q.Del("connect")
+				add("Connect-Protocol-Version", "1")
+			}
+		}
+		sc.Req.Query = hs(q.Encode())
+		if len(accept) > 0 {
+			add("Accept-Encoding", strings.Join(accept, ", "))
+		}
+		if t := pick(rng, connectTimeoutPool); t != "" && (hostile || rng.IntN(3) == 0) {
+			if !hostile {
+				t = pick(rng, connectTimeoutPool[3:6])
+			}
+			add("Connect-Timeout-Ms", t)
+		}
+		if rng.IntN(6) == 0 {
+			add("Content-Type", "application/"+cp.codec)
+		}
+		if rng.IntN(10) == 0 {
+			body = []byte("x") // a GET must not carry a body
+			sc.gen.reqClean = false
+		}
 	case "connect-unary":
 		add("Content-Type", "application/"+cp.codec)
 		if rng.IntN(8) != 0 {
@@ -253,7 +315,7 @@ func buildRequest(rng *rand.Rand, sc *Scenario, m methodInfo, cp clientPlan, hos
 		}
 	}
 	if hostile && rng.IntN(3) == 0 {
-		method = pick(rng, []string{"GET", "PUT", "DELETE", "HEAD"})
+		method = pick(rng, []string{"GET", "PUT", "DELETE", "HEAD", "POST"})
 	}
 	sc.Req.Method = hs(method)
 	for i := rng.IntN(3); i > 0; i-- {
@@ -847,6 +909,9 @@ func genScenario(e *Emitter, rng *rand.Rand) *Scenario {
 		cp.proto = pick(rng, []string{"grpc", "grpcweb", "connect-stream"})
 	} else {
 		cp.proto = pick(rng, []string{"grpc", "grpcweb", "connect-unary", "connect-unary"})
+	}
+	if (m.idempotent && rng.IntN(2) == 0) || (!m.clientStr && !m.serverStr && rng.IntN(25) == 0) {
+		cp.proto = "connect-get"
 	}
 	buildRequest(rng, sc, m, cp, hostile, e)
 	ss, ok := probe(sc)
